@@ -18,6 +18,7 @@ mod c10;
 mod c13;
 mod c14;
 mod c16;
+mod c17;
 mod c18;
 mod c20;
 mod hist;
@@ -101,6 +102,7 @@ fn main() {
         "C13" => c13::run(&mut ctx),
         "C14" => c14::run(&mut ctx),
         "C16" => c16::run(&mut ctx),
+        "C17" => c17::run(&mut ctx),
         "C18" => c18::run(&mut ctx),
         other => { eprintln!("unknown property {other}"); std::process::exit(2); }
     }
